@@ -5,7 +5,7 @@
    stepping; the other operations by the correspondence run (per-identity ledger on both sides). *)
 From Coq Require Import ZArith List Bool Lia.
 From MV Require Import Ast Eval Scalar Machine Model Policy.
-From MV.Proofs Require Import Arith Logic Prim View OpsLocal Guards Grow Drops DrainIt CapHistory Core Refine Life IntoIt Clone Append SplitOff.
+From MV.Proofs Require Import Arith Logic Prim View OpsLocal Guards Grow Drops DrainIt CapHistory Core Refine Life IntoIt Clone Append SplitOff DrainAbs.
 Import ListNotations.
 Open Scope Z_scope.
 
@@ -212,3 +212,22 @@ Theorem C02_split_off_splits_the_list :
     (fun _ => True).
 Proof. exact split_off_middle. Qed.
 Print Assumptions C02_split_off_splits_the_list.
+
+(* a Drain's whole life: every element of the drained range ends in exactly one place -- yielded
+   ones with the caller (Out), the others destroyed (Dropped), the prefix and the suffix live in the
+   vector; nothing outside the range is touched, no element is created *)
+Theorem C02_drain_every_element_in_one_place :
+  forall cfg ncap, cfg_ok cfg -> needs_drop cfg = true ->
+  forall s v b bl bs be a e steps tmp,
+  vec_at s v b bl -> block_ok cfg bl -> owned s bl ->
+  resolve_pure bs be (h_len bl) = Some (a, e) -> 0 <= a ->
+  let l := velems bl in
+  let w := skipn (Z.to_nat a) (firstn (Z.to_nat e) l) in
+  let Q := fun s' =>
+    vabs cfg s' v (firstn (Z.to_nat a) l ++ skipn (Z.to_nat e) l) /\
+    (forall x, In x (somes (fst (cursor w steps))) -> ledger s' x = Out) /\
+    (forall x, In x (snd (cursor w steps)) -> ledger s' x = Dropped) /\
+    (forall x, ~ In x w -> ledger s' x = ledger s x) /\ next_elem s' = next_elem s in
+  post (drain_whole cfg ncap v bs be steps tmp s) (fun r s' => r = fst (cursor w steps) /\ Q s') Q.
+Proof. exact drain_abs. Qed.
+Print Assumptions C02_drain_every_element_in_one_place.
